@@ -15,7 +15,8 @@ RULE = ('split cases: all strings up to length 6 (quick) / 7 (thorough) over {a,
         'abstract line cut at use boundaries into argument-file lines (with comment and empty lines interspersed, with '
         'and without final newline), an environment variable and argv, words escaped where needed; oracle: same '
         'destination values as the whole line on argv; override cases: a scalar given in file/environment and again on '
-        'argv. Non-trivial: at least one word / one use.')
+        'argv; named-file cases: a part of the environment variable or of argv moved into a file named by --arg-file '
+        '(optionally nested). Non-trivial: at least one word / one use.')
 TRUSTED_BASE = _c02.TRUSTED_BASE + ['the harness writes the argument file to a private $HOME/.progargs/<prog>.pa under '
                                     '/verif/.work and sets the environment variable named after the program']
 ASSUMPTIONS = ['words are non-empty (an empty quoted word is dropped by splitString - documented behaviour of the '
@@ -84,6 +85,14 @@ def gen_cases(tier, rng):
     cases.append('H:f=16 arg:i:i0: file:2d692035 argv:- exp:i0=5 kind:file-no-newline')
     cases.append('H:f=16 arg:c:s0: arg:i:i0: file:%s argv:- exp:i0=17;s0=s%s kind:sources' % (A.hx('-c #ff80 -i 17\n'), A.hx('#ff80')))
     cases.append('H:f=16 arg:n:s0: arg:i:i0: file:%s argv:- exp:i0=17;s0=s%s kind:sources' % (A.hx("-n 'issue #17' -i 17\n"), A.hx('issue #17')))
+    # the file named on the command line: words behind it in the environment variable stay overridable
+    cases.append('H:f=32 arg:i:i0: arg:arg-file:af0: env:%s xfile:%s:%s argv:2d69,38 exp:i0=8 kind:named-file'
+                 % (A.hx('--arg-file f1.pa -i 7'), A.hx('f1.pa'), A.hx('-i 5\n')))
+    cases.append('H:f=0 arg:i:i0: arg:s:s0: arg:arg-file:af0: xfile:%s:%s argv:2d2d6172672d66696c65,66312e7061,2d69,38 exp:i0=8;s0=s78 kind:named-file'
+                 % (A.hx('f1.pa'), A.hx('-i 5\n-s x')))
+    cases.append('H:f=0 arg:i:i0: arg:arg-file:af0: argv:2d2d6172672d66696c65,6e6f66696c65 exp:reject kind:named-file')
+    cases.append('H:f=0 arg:i:i0: arg:arg-file:af0: xfile:%s:%s argv:2d69,38,2d2d6172672d66696c65,66312e7061,2d69,39 exp:reject kind:named-file'
+                 % (A.hx('f1.pa'), A.hx('-i 5\n')))
     guard = 0
     made = 0
     while made < ns and guard < ns * 30:
@@ -148,7 +157,45 @@ def gen_cases(tier, rng):
             exp = G.expected_store(args, uses + [u2])
             kind = 'override'
         et = 'exp:' + ';'.join('%s=%s' % kv for kv in sorted(exp.items()))
-        toks = ['H:f=%d' % flags] + [a.token() for a in args] + extra + [A.argv_tok(words[2]), et, 'kind:' + kind]
+        argtoks = [a.token() for a in args]
+        # a part of the environment variable or of argv delivered through a file NAMED on the command line
+        # (--arg-file <name>): cut at use boundaries, optionally nested (the named file names a second file)
+        where = rng.choice([1, 2]) if (flags & 0x20 and parts[1]) else 2
+        if kind == 'sources' and parts[where] and rng.chance(1, 2) and not any(a.long == 'arg-file' for a in args):
+            part = parts[where]
+            per_use = [G.spell(rng, [u], args, True) for u in part]
+            i = rng.range(0, len(part) - 1)
+            j = rng.range(i + 1, len(part))
+            moved = per_use[i:j]
+            lines = [' '.join(esc(w) for w in pu) for pu in moved]
+            if any(l.startswith('#') or l == '' for l in lines) or any(w == '' for pu in moved for w in pu):
+                continue
+            xf = []
+            if len(lines) >= 2 and rng.chance(1, 3):
+                cut = rng.range(1, len(lines) - 1)
+                xf.append(('f2.pa', '\n'.join(lines[cut:]) + '\n'))
+                lines = lines[:cut] + ['--arg-file f2.pa']
+            xf.append(('f1.pa', '\n'.join(lines) + ('\n' if rng.chance(2, 3) else '')))
+            ref = rng.choice(['--arg-file', '--arg-f', '--arg-file='])
+            refw = [ref + 'f1.pa'] if ref.endswith('=') else [ref, 'f1.pa']
+            neww = [w for pu in per_use[:i] for w in pu] + refw + [w for pu in per_use[j:] for w in pu]
+            if any(w == '' for w in neww) and where == 1:
+                continue
+            words[where] = neww
+            extra = [e for e in extra if not e.startswith('env:')] + \
+                    (['env:' + A.hx(' '.join(esc(w) for w in words[1]))] if flags & 0x20 else [])
+            argtoks.append('arg:arg-file:af0:')
+            extra += ['xfile:%s:%s' % (A.hx(n), A.hx(t)) for n, t in xf]
+            kind = 'named-file'
+            # override behind the named file: a scalar delivered through it given again on argv
+            over2 = [u for u in part[i:j] if u.arg.kind in ('i', 's') and not u.arg.checks and not u.arg.positional]
+            if over2 and rng.chance(1, 2):
+                u = rng.choice(over2)
+                u2 = G.Use(u.arg, [G.gen_value(rng, u.arg)])
+                words[2] = words[2] + G.spell(rng, [u2], args, True)
+                exp = G.expected_store(args, uses + [u2])
+                et = 'exp:' + ';'.join('%s=%s' % kv for kv in sorted(exp.items()))
+        toks = ['H:f=%d' % flags] + argtoks + extra + [A.argv_tok(words[2]), et, 'kind:' + kind]
         cases.append(' '.join(toks))
         made += 1
     return {'cases': cases, 'exhaustive': True,
@@ -207,7 +254,11 @@ CLAIM = {
             'plain, backslash, single and double quoted segments; mutual induction over the five-way automaton of '
             'splitString); argument file lines, environment words and '
             'argv that are legal spellings are evaluated as ONE sequence of uses in source order by the same step '
-            'function, with cardinality counting off for the first two (override); the pinned file loop is proved to '
+            'function, with cardinality counting off for the first two (override); a file NAMED on the command line '
+            '(--arg-file, ArgH/ArgFile.v: extension of the element loop, conservative when no such argument is defined) '
+            'is evaluated in place - its uses are performed by the same step function in read mode file between the '
+            'two halves of the handling of the argument itself, at every nesting depth, and the enclosing source '
+            'continues in its own mode (C07_named_file_in_place, C07_named_file_words); the pinned file loop is proved to '
             'drop an unterminated last line and was repaired. Model tied by correspondence: exhaustive short strings '
             'for the splitter, generated source partitions with the whole-line values as oracle.',
     'note': 'words are joined by single blanks in the theorems (runs of blanks are covered by the exhaustive tie); '
